@@ -14,6 +14,7 @@ package main
 import (
 	"flag"
 	"math/rand/v2"
+	"os"
 	"sort"
 	"strings"
 
@@ -188,6 +189,9 @@ func main() {
 	in := flag.String("in", "", "replay: JSON-lines file of inputs")
 	flag.Parse()
 	gcx.CleanEnv()
+	for _, n := range varPool { // "unset" must mean unset, whatever the ambient environment holds
+		os.Unsetenv(n)
+	}
 	out := gal.NewOut(*prefix)
 	defer out.Close()
 	r := gal.NewRand(*seed)
